@@ -165,6 +165,35 @@ def joint_grad(inst, p):
     return loss, G
 
 
+def nnls_optimum(inst, total):
+    """Minimum of the L2 objective over non-negative tables of the given total, by an independent active-set solver (scipy nnls on
+    the joint; the total enforced by a row of weight 1e5 x the problem's scale). Slightly BELOW the constrained minimum."""
+    from scipy.optimize import nnls
+    order = inst["order"]
+    shape = [inst["sz"][a] for a in order]
+    n = int(np.prod(shape))
+    rows, rhs = [], []
+    for m in inst["meas"]:
+        proj = m["proj"]
+        ax = tuple(i for i, a in enumerate(order) if a not in proj)
+        rest = [a for a in order if a in proj]
+        cols = []
+        for j in range(n):
+            e = np.zeros(n); e[j] = 1.0
+            M = e.reshape(shape).sum(axis=ax)
+            cols.append(np.transpose(M, [rest.index(a) for a in proj]).reshape(-1))
+        Pm = np.array(cols).T
+        Q = E.qmat(m["kind"], Pm.shape[0])
+        rows.append(Q @ Pm / m["noise"])
+        rhs.append(np.array(m["y"], dtype=float) / m["noise"])
+    A, b = np.vstack(rows), np.concatenate(rhs)
+    w = 1e5 * max(1.0, float(np.abs(A).max()))
+    A2, b2 = np.vstack([A, w * np.ones((1, n))]), np.concatenate([b, [w * total]])
+    p, _ = nnls(A2, b2, maxiter=200 * n)
+    r = A @ p - b
+    return 0.5 * float(r @ r)
+
+
 def scaled(inst, K, S):
     """Data multiplied by K and noise by S: loss, optimum and gap bound scale by exactly K^2/S^2."""
     return dict(inst, x=[v * K for v in inst["x"]], meas=[dict(m, y=[v * K for v in m["y"]], noise=m["noise"] * S) for m in inst["meas"]])
@@ -270,6 +299,26 @@ def run(ctx, canary=False):
         s = rng.choice(["MD", "RDA", "IG"])
         mode = rng.choice(["given", "estimated"])
         jobs.append((inst, s, ITERS, mode)); meta.append(("gap", inst, None, s, ITERS))
+    # a heavily weighted identity (50 I) given as a scipy-sparse matrix between a dense and an operator query: the smoothness
+    # constant the accelerated solvers step with must cover it
+    for s in ("RDA", "IG"):
+        inst = E.gen_instance(rng, nattr=3, max_meas=0, zeros_prob=0.0, allow_empty=True, sizes=[2, 3, 2])
+        a_ = inst["order"]
+        for pr, kind, noise in (([a_[0]], "identity", 1.0), ([a_[0], a_[1]], "w50", 1.0), ([a_[1], a_[2]], "identity", 2.0)):
+            Q = E.qmat(kind, math.prod(inst["sz"][x] for x in pr))
+            y = Q @ E.true_marginal(inst, pr).reshape(-1) + np.array([rng.gauss(0, noise) for _ in range(Q.shape[0])])
+            inst["meas"].append({"proj": pr, "kind": kind, "noise": noise, "y": [float(v) for v in y]})
+        jobs.append((inst, s, ITERS, "given")); meta.append(("gapL", inst, None, s, ITERS))
+    # a second call on the same engine whose answers are EXACTLY those of uniform tables (loss 0 at the start, immediate exit of
+    # mirror descent) after a first call with other answers on the same cliques: the optimum is 0 and must be reported
+    for s in ("MD", "MD", rng.choice(["RDA", "IG"])):
+        inst = E.gen_instance(rng, nattr=3, max_meas=0, zeros_prob=0.0, allow_empty=True, sizes=[2, 2, 2])
+        inst["x"] = [1.0] * 8          # total 8: the uniform tables reproduce the answers bit for bit (loss exactly 0.0)
+        a_ = inst["order"]
+        for pr in ([a_[0], a_[1]], [a_[1], a_[2]], [a_[0]]):
+            Q = E.qmat("identity", math.prod(inst["sz"][x] for x in pr))
+            inst["meas"].append({"proj": pr, "kind": "identity", "noise": 1.0, "y": [float(v) for v in Q @ E.true_marginal(inst, pr).reshape(-1)]})
+        jobs.append((inst, s, 50, "given", True)); meta.append(("opt", inst, 0.0, s, 50))
     with multiprocessing.get_context("fork").Pool(16) as pool:
         results = pool.map(worker, jobs, chunksize=1)
     traces = []
@@ -306,6 +355,18 @@ def run(ctx, canary=False):
             if res["trace"]:
                 res["trace"]["info"] = {"solver": solver, "iters": iters, "family": inst.get("family")}
                 traces.append(res["trace"])
+        elif kind == "gapL":
+            # an instance dominated by one heavy measurement: compared with an independently computed optimum (active-set NNLS)
+            lopt = nnls_optimum(inst, res["total"])
+            ctx.extra.setdefault("nnls_excess", []).append((L - lopt) / max(1.0, lopt))
+            # (the unmodified RDA is itself still ~1% above this optimum after 3000 iterations on such an ill-conditioned instance,
+            # so "above" is only flagged at 10%: a solver stepping with a far too small smoothness constant diverges or stalls)
+            if L > lopt * 1.10 + 1e-6:
+                ctx.violation("%s after %d iterations: loss %r is above the optimum %r found by an independent active-set solver" % (solver, iters, L, lopt),
+                              dict(info, L_star=lopt), {"kind": "above_optimum", "solver": solver})
+            if L < lopt * (1 - 1e-6) - 1e-9:
+                ctx.violation("%s: loss %r is BELOW the minimum %r achievable by any non-negative table" % (solver, L, lopt), dict(info, L_star=lopt),
+                              {"kind": "below_optimum", "solver": solver})
         else:
             rel = res["gap"] / max(res["gap0"], 1e-300)
             worst["gap"] = max(worst["gap"], rel)
